@@ -7,6 +7,7 @@ Model: `EdbVerif/Model/Caps.lean` (+ generated `EdbVerif/Gen/Caps.lean`), vocabu
 "MODIFICATIONS ∈ c".
 -/
 import EdbVerif.Lemmas.CapsStmt
+import EdbVerif.Lemmas.CapsHist
 
 namespace EdbVerif.C08
 open EdbVerif.Caps EdbVerif.Gen.Caps
@@ -95,6 +96,24 @@ at any depth and through any chain of functions, a function whose body writes ge
 theorem C08_chain (fe : FnEnv) (q : Q) (c : Caps) (hs : containsStmt fe q = true)
     (h : stmtCaps fe (.query q) = .ok c) : sub MODIFICATIONS c :=
   query_dml h (containsStmt_containsDML hs)
+
+/-- **C08_history.** Function histories.  The flags of `select f()` are decided by the STORED
+volatility of `f`, so they are right exactly when the stored values equal the closure over the
+CURRENT bodies (`Hist.Consistent`; this is the invariant the harness checks after every step of a
+CREATE / ALTER … USING / SET volatility / RENAME / DROP history).  ALTER FUNCTION k followed by
+propagation to everything that may (transitively) call k re-establishes the invariant. -/
+theorem C08_history (ds : List Hist.Def) (st : List Bool) (k : Nat) (d : Hist.Def)
+    (hk : k ≤ ds.length) (hst : Hist.Consistent ds st) :
+    Hist.Consistent (Hist.alter ds k d) (Hist.propagateFull (Hist.alter ds k d) st k) :=
+  Hist.alter_propagateFull ds st k d hk hst
+
+/-- … whereas propagation that stops after the direct callers does not: in the chain h → f → g,
+when g starts writing, h keeps the stale "does not write" flag. -/
+theorem C08_history_one_level_counterexample :
+    Hist.propagateOne Hist.exDs' (Hist.closure Hist.exDs) 0 = [true, true, false] ∧
+    Hist.closure Hist.exDs' = [true, true, true] ∧
+    ¬ Hist.Consistent Hist.exDs' (Hist.propagateOne Hist.exDs' (Hist.closure Hist.exDs) 0) :=
+  Hist.propagateOne_counterexample
 
 /-- **C08_group.** The capabilities of a unit group are the bitwise OR (= union) of the units':
 bit by bit, as an upper bound, as the least one; and the `caps & ~allowed` test of
